@@ -1364,7 +1364,8 @@ pub fn relay_case(property: &str, tier: &str, seed: u64, case: u64) -> CaseResul
 			ignore_pct: *rr.pick(&[0u64, 10, 30]),
 		};
 		let ops = gen_relay_ops(&world, &cfg, &mut rr);
-		let out = run_relay(&world, property, &cfg, &ops, rr.next_u64(), &format!("{}-c{}r{}", property, case, run));
+		let aseed = rr.next_u64();
+		let out = run_relay(&world, property, &cfg, &ops, aseed, &format!("{}-c{}r{}", property, case, run));
 		res.runs += 1;
 		res.probe("netsim_runs");
 		res.steps += out.steps;
@@ -1389,11 +1390,35 @@ pub fn relay_case(property: &str, tier: &str, seed: u64, case: u64) -> CaseResul
 			}));
 		}
 		if let Some((idx, mut v)) = out.violation {
+			// minimise the schedule (the closing Sweep stays: the final checks refer to it)
+			let key = v.key.clone();
+			let body: Vec<NOp> = ops.iter().filter(|o| **o != NOp::Sweep).cloned().collect();
+			let mut n = 0;
+			let min_body = crate::sim::ddmin(
+				&body,
+				|cand| {
+					n += 1;
+					let mut c = cand.to_vec();
+					c.push(NOp::Sweep);
+					run_relay(&world, property, &cfg, &c, aseed, &format!("{}-min{}", property, n)).violation.map(|(_, x)| x.key == key).unwrap_or(false)
+				},
+				14,
+			);
+			let mut min_ops = min_body;
+			min_ops.push(NOp::Sweep);
+			let again = run_relay(&world, property, &cfg, &min_ops, aseed, &format!("{}-minfinal", property));
+			let (min_ops, log_tail) = match again.violation {
+				Some((_, x)) if x.key == key => {
+					v.what = format!("{} [minimised from {} to {} ops]", x.what, ops.len(), min_ops.len());
+					(min_ops, again.log)
+				}
+				_ => (ops.clone(), out.log.clone()),
+			};
 			v.replay = json!({
 				"engine": "netsim", "mode": "relay", "property": property, "tier": tier, "case_seed": seed,
 				"n_honest": cfg.n_honest, "byz": cfg.byz, "syncing": cfg.syncing, "sync_prefix": cfg.sync_prefix, "ignore_pct": cfg.ignore_pct, "run": run,
-				"failed_at_op": idx, "ops": serde_json::to_value(&ops).unwrap_or(Value::Null),
-				"log_tail": out.log.iter().rev().take(12).cloned().collect::<Vec<_>>(),
+				"answer_seed": aseed, "failed_at_op": idx, "ops": serde_json::to_value(&min_ops).unwrap_or(Value::Null),
+				"log_tail": log_tail.iter().rev().take(12).cloned().collect::<Vec<_>>(),
 			});
 			res.violations.push(v);
 			break;
@@ -1443,6 +1468,7 @@ pub fn replay(rp: &Value) -> Result<Option<Violation>, String> {
 				let _ = gen_relay_ops(&world, &c, &mut rr);
 				aseed = rr.next_u64();
 			}
+			let aseed = rp["answer_seed"].as_u64().unwrap_or(aseed);
 			let out = run_relay(&world, &property, &cfg, &ops, aseed, "replay");
 			world.cleanup();
 			Ok(out.violation.map(|(_, mut v)| {
@@ -2908,6 +2934,7 @@ pub fn run_mesh(world: &mut World, start: usize, n_nodes: usize, ops: &[MOp], se
 		}
 	}
 	let base_blocks = world.blocks.len();
+	let mark = world.mark();
 	let mut mesh = Mesh {
 		world,
 		nodes,
@@ -2984,7 +3011,8 @@ pub fn run_mesh(world: &mut World, start: usize, n_nodes: usize, ops: &[MOp], se
 	drop(nodes);
 	// the blocks mined during the run leave the world again (the next run starts from the same base);
 	// the builder keeps them, which is harmless: they are valid blocks on side branches
-	world.blocks.truncate(base_blocks);
+	let _ = base_blocks;
+	world.reset_to(&mark);
 	for d in dirs {
 		let _ = std::fs::remove_dir_all(d);
 	}
@@ -3038,8 +3066,30 @@ pub fn mesh_case(property: &str, tier: &str, seed: u64, case: u64) -> CaseResult
 			// violations are reported under the property the failing oracle belongs to; a check only
 			// alarms on its own
 			let own = v.key.starts_with(&format!("{}:", property));
+			let mut rep_ops = ops.clone();
+			let mut rep_log = out.log.clone();
+			if own {
+				let key = v.key.clone();
+				let mut n = 0;
+				let min_ops = crate::sim::ddmin(
+					&ops,
+					|cand| {
+						n += 1;
+						run_mesh(&mut world, start, n_nodes, cand, rs, &format!("mesh-min{}", n)).violation.map(|(_, x)| x.key == key).unwrap_or(false)
+					},
+					10,
+				);
+				let again = run_mesh(&mut world, start, n_nodes, &min_ops, rs, "mesh-minfinal");
+				if let Some((_, x)) = again.violation {
+					if x.key == key {
+						v.what = format!("{} [minimised from {} to {} ops]", x.what, ops.len(), min_ops.len());
+						rep_ops = min_ops;
+						rep_log = again.log;
+					}
+				}
+			}
 			v.replay = json!({"engine": "netsim", "mode": "mesh", "property": property, "case_seed": seed, "run_seed": rs, "nodes": n_nodes, "failed_at_op": idx,
-				"ops": serde_json::to_value(&ops).unwrap_or(Value::Null), "log_tail": out.log.iter().rev().take(25).cloned().collect::<Vec<_>>()});
+				"ops": serde_json::to_value(&rep_ops).unwrap_or(Value::Null), "log_tail": rep_log.iter().rev().take(25).cloned().collect::<Vec<_>>()});
 			if own {
 				res.violations.push(v);
 				break;
